@@ -30,6 +30,26 @@ with `<msg>` = `<type>;<metaSigners>;<creator>;<authorityField|->`.  The decorat
 to every message on its own (`anteOkTx`); the transaction is atomic.
 
 Answer: `ante=<pass|rej> res=<ok|rej> verdict=<fine|violation>`; governance authority = 99.
+
+Directed multi-step histories; the driver is stateless between lines, so ONE line carries a whole
+history which the model replays from the empty state:
+
+  dnh <namesake> <step> <step> …     with <step> = <kind>;<route>;<signer>;<creator>;<grant 0|1>;<newAdmin|->
+
+one token-factory denom named after `namesake`; `kind` = create | chadmin | mint | burn | setmeta |
+bind (the last four are admin-gated writes); `route` = t (signed transaction) | w (wasm binding:
+the contract is signer and creator); `grant` = the creator has granted the signer a fee allowance;
+`newAdmin` 0 = renounce.  Answer: `<ok|rej>:<admin after the step, 0 = none>` per step, comma
+separated (`dDeliver` / `dAccepted`).
+
+  cbh <validator:key,…> <step> <step> …   with <step> = <signer>;<creator>;<grant>;<orchestrator>;<ethSigner>;<sigKey>;<target b|n>;<item b|o|w>;<form 0|27>
+
+confirmation attempts on one fresh batch: `validator:key` = the key each validator registered (0 =
+none / unbonded); `ethSigner` / `sigKey` = key ids (the key named / the key that made the signature,
+0 = nobody's); `target` n = a batch that does not exist; `item` = what was signed (b = exactly the
+batch's checkpoint, o = another batch's, w = same batch under another compass id); `form` = v byte
+offset of the signature (both accepted).  Answer: `<ok|rej>,…|<orchestrator>/<key>,…` = result per
+attempt and the final confirmation set (`cDeliver` / `cAccepted`).
 -/
 namespace Driver.C03
 open Paloma.Auth
@@ -86,8 +106,95 @@ def stepMulti (sc txs gs vi h chg : String) (toks : List String) : String :=
     s!"ante={if ante then "pass" else "rej"} res={if res then "ok" else "rej"} verdict={verdict}"
   | _, _, _, _ => "bad-op"
 
+
+/-! ### `dnh`: one denom, handed around -/
+
+structure DStepTok where
+  act : DAct
+  signer : Nat
+  creator : Nat
+  grant : Bool
+
+def parseDStep? (tok : String) : Option DStepTok :=
+  match tok.splitOn ";" with
+  | [kind, route, sg, cr, g, na] => do
+    let signer ← parseNat? sg
+    let creator ← parseNat? cr
+    let grant ← if g == "0" then some false else if g == "1" then some true else none
+    let act ← match kind with
+      | "create" => if na == "-" then some DAct.create else none
+      | "chadmin" => (parseNat? na).map fun n => DAct.changeAdmin (if n == 0 then none else some n)
+      | "mint" | "burn" | "setmeta" | "bind" => if na == "-" then some DAct.write else none
+      | _ => none
+    -- through the wasm bindings the contract is signer and creator, and holds no grant
+    if route == "w" then (if signer == creator && !grant then pure () else none)
+    else if route == "t" then pure () else none
+    pure { act, signer, creator, grant }
+  | _ => none
+
+def stepDenomHistory (namesake : String) (toks : List String) : String :=
+  match parseNat? namesake, toks.mapM parseDStep? with
+  | some c, some steps =>
+    if steps.isEmpty then "bad-op" else
+    let namer : Nat → Addr := fun _ => c
+    let (_, outs) := steps.foldl (fun (acc : DState × List String) st =>
+      let s : DState := { acc.1 with grants := fun g e => st.grant && g == st.creator && e == st.signer }
+      let m : DMsg := { signers := [st.signer], creator := st.creator, denom := 1, act := st.act }
+      let ok := dAccepted namer s m
+      let s' := dDeliver namer s m
+      let adm := match s'.den 1 with
+        | some (some a) => a
+        | _ => 0
+      (s', acc.2 ++ [s!"{if ok then "ok" else "rej"}:{adm}"])) (dInit, [])
+    ",".intercalate outs
+  | _, _ => "bad-op"
+
+/-! ### `cbh`: confirmation attempts on one batch -/
+
+def parseCStep? (tok : String) : Option (CAttempt × Bool) :=
+  match tok.splitOn ";" with
+  | [sg, cr, g, o, e, k, tgt, item, form] => do
+    let signer ← parseNat? sg
+    let creator ← parseNat? cr
+    let grant ← if g == "0" then some false else if g == "1" then some true else none
+    let orch ← parseNat? o
+    let ethSigner ← parseNat? e
+    let sigKey ← parseNat? k
+    let batchExists ← if tgt == "b" then some true else if tgt == "n" then some false else none
+    let sigItem ← if item == "b" then some 1 else if item == "o" then some 2 else if item == "w" then some 3 else none
+    if form == "0" || form == "27" then pure () else none
+    pure ({ signers := [signer], creator, batchExists, batch := 1, orch, ethSigner, sigKey, sigItem }, grant)
+  | _ => none
+
+/-- insertion sort of (orchestrator, key) pairs -/
+def sortPairs (l : List (Nat × Nat)) : List (Nat × Nat) :=
+  l.foldl (fun acc x =>
+    let lo := acc.filter (fun y => y.1 < x.1 || (y.1 == x.1 && y.2 ≤ x.2))
+    let hi := acc.filter (fun y => !(y.1 < x.1 || (y.1 == x.1 && y.2 ≤ x.2)))
+    lo ++ [x] ++ hi) []
+
+def stepConfirmHistory (keys : String) (toks : List String) : String :=
+  match parsePairList? keys, toks.mapM parseCStep? with
+  | some keyList, some steps =>
+    if steps.isEmpty then "bad-op" else
+    let regKey : Addr → Option Nat := fun v =>
+      match keyList.find? (·.1 == v) with
+      | some p => if p.2 == 0 then none else some p.2
+      | none => none
+    let (fin, outs) := steps.foldl (fun (acc : CState × List String) st =>
+      let a := st.1
+      let s : CState := { acc.1 with grants := fun g e => st.2 && g == a.creator && a.signers.contains e }
+      let ok := cAccepted regKey s a
+      (cDeliver regKey s a, acc.2 ++ [if ok then "ok" else "rej"])) ({ confirms := [], grants := fun _ _ => false }, [])
+    let set := sortPairs (fin.confirms.map fun c => (c.orch, c.key))
+    let setS := if set.isEmpty then "-" else ",".intercalate (set.map fun p => s!"{p.1}/{p.2}")
+    ",".intercalate outs ++ "|" ++ setS
+  | _, _ => "bad-op"
+
 def step (args : List String) : String :=
   match args with
+  | "dnh" :: namesake :: toks => stepDenomHistory namesake toks
+  | "cbh" :: keys :: toks => stepConfirmHistory keys toks
   | "mtx" :: sc :: txs :: gs :: vi :: h :: chg :: toks => stepMulti sc txs gs vi h chg toks
   | ["tx", typ, sc, txs, ms, cr, af, gs, vi, red, h, chg] =>
     match parseNatList? txs, parseNatList? ms, parseNat? cr, parsePairList? gs, parseNat? vi with
